@@ -182,6 +182,12 @@ def truncBlock (flags : Nat) (is16 stereo : Bool) (framelen bytelen : Nat) (len 
         some (bytelen, (l : Int))
       else some (bytelen, len)
 
+/-- `truncated = 1`, set inside `if (over)`: the sample extends past the end of the stream
+    (`over` is `bound - remaining` resp. `bytelen - remaining` when positive).  `bytelen` is the declared size. -/
+def truncOver (flags : Nat) (bytelen remaining : Nat) : Bool :=
+  if fl flags SAMPLE_FLAG_ADPCM then decide (16 + ((bytelen + 1) >>> 1) > remaining)
+  else decide (bytelen > remaining)
+
 /-- "Loop parameters sanity check" and the two bidirectional-flag fixes -/
 def loopSanity (h : Hdr) : Hdr :=
   let h := if h.lps < 0 then { h with lps := 0 } else h
@@ -246,8 +252,8 @@ def frameLen (is16 stereo : Bool) : Nat := (if is16 then 2 else 1) * (if stereo 
 /-- The part of `libxmp_load_sample` after the truncation block: loop sanity, allocation, read,
     conversions, interleave, full-repeat flag, guard fill.  `bytelen`/`len` are the values the
     truncation block left; `is16`/`stereo`/`framelen` were computed from `xxs->flg` before. -/
-def loadCoreS (flags : Nat) (h : Hdr) (is16 stereo : Bool) (bytelen : Nat) (len : Int) (f : Bytes) (limit : Nat)
-    (buffer : Bytes) :
+def loadCoreS (flags : Nat) (h : Hdr) (is16 stereo : Bool) (bytelen : Nat) (len : Int) (truncated : Bool) (f : Bytes)
+    (limit : Nat) (buffer : Bytes) :
     Result :=
   let framelen := frameLen is16 stereo
   let channels := if stereo then 2 else 1
@@ -264,10 +270,11 @@ def loadCoreS (flags : Nat) (h : Hdr) (is16 stereo : Bool) (bytelen : Nat) (len 
     let a := ([0, 0, 0, 0] : Bytes) ++ pcm
     let a := guardEnd extralen framelen a
     let a := guardStart framelen a
-    .ok h a consumed
+    -- `if (truncated) hio_seek(f, 0, SEEK_END);` (right after the read): a truncated sample owns the rest of the file
+    .ok h a (if truncated then f.length else consumed)
 
 def loadCore (flags : Nat) (h : Hdr) (is16 stereo : Bool) (bytelen : Nat) (len : Int) (f : Bytes) (buffer : Bytes) :
-    Result := loadCoreS flags h is16 stereo bytelen len f f.length buffer
+    Result := loadCoreS flags h is16 stereo bytelen len false f f.length buffer
 
 /-- `libxmp_load_sample(m, f, flags, xxs, buffer)`.
     `skip` = `m && (m->smpctl & XMP_SMPCTL_SKIP)`; `f` = the bytes from the handle's current
@@ -293,9 +300,12 @@ def loadS (flags : Nat) (h : Hdr) (skip : Bool) (f : Option Bytes) (limit : Nat)
       else match f with
         | none => none
         | some av => truncBlock flags is16 stereo framelen bytelen h.len av.length
+    let truncated := !fl flags SAMPLE_FLAG_NOLOAD && truncOver flags bytelen (f.getD []).length
     match tr with
-    | none => .skipped h 0
-    | some (bytelen, len) => loadCoreS flags h is16 stereo bytelen len (f.getD []) limit buffer
+    -- NULL handle, nothing left, or fewer than the 16 bytes of an ADPCM table: in the last case the C seeks to the
+    -- end of the stream first (`hio_seek(f, 0, SEEK_END)`), in the others it is there already / has no stream
+    | none => .skipped h (f.getD []).length
+    | some (bytelen, len) => loadCoreS flags h is16 stereo bytelen len truncated (f.getD []) limit buffer
 
 /-- `libxmp_load_sample` on a stream that delivers every byte `hio_size` promised (memory and regular
     file handles) -/
@@ -467,7 +477,7 @@ def load (flags : Nat) (h : Hdr) (skip : Bool) (f : Option Bytes) (buffer : Byte
   if fl flags SAMPLE_FLAG_ADLIB ∨ h.len ≤ 0 then .skipped h 0
   else if h.len > MAX_SAMPLE_SIZE ∨ skip then
     .skipped h (if noload ∨ f.isNone then 0 else min h.len.toNat avail)
-  else if !noload ∧ (avail = 0 ∨ f.isNone ∨ (isAdpcm ∧ avail < 16)) then .skipped h 0
+  else if !noload ∧ (avail = 0 ∨ f.isNone ∨ (isAdpcm ∧ avail < 16)) then .skipped h avail
   else
     let is16 := sf h.flg XMP_SAMPLE_16BIT
     let stereo := sf h.flg XMP_SAMPLE_STEREO
@@ -479,7 +489,8 @@ def load (flags : Nat) (h : Hdr) (skip : Bool) (f : Option Bytes) (buffer : Byte
       if noload then buffer.take bytelen
       else if isAdpcm then adpcm bytelen ((f.getD []).take 16) ((f.getD []).drop 16)
       else (f.getD []).take bytelen
-    let consumed := if noload then 0 else if isAdpcm then 16 + (bytelen + 1) / 2 else bytelen
+    -- a sample cut short by the end of the stream consumes the rest of it (also the odd bytes of a last, partial frame)
+    let consumed := if noload then 0 else if bytelen < need then avail else if isAdpcm then 16 + (bytelen + 1) / 2 else bytelen
     let h1 := loop { h with len := (len : Int) }
     let h2 := if fl flags SAMPLE_FLAG_FULLREP ∧ h1.lps = 0 ∧ h1.len > h1.lpe
               then { h1 with flg := setf h1.flg XMP_SAMPLE_LOOP_FULL } else h1
@@ -501,7 +512,7 @@ def loadS (flags : Nat) (h : Hdr) (skip : Bool) (f : Option Bytes) (limit : Nat)
   if fl flags SAMPLE_FLAG_ADLIB ∨ h.len ≤ 0 then .skipped h 0
   else if h.len > MAX_SAMPLE_SIZE ∨ skip then
     .skipped h (if noload ∨ f.isNone then 0 else min h.len.toNat avail)
-  else if !noload ∧ (avail = 0 ∨ f.isNone ∨ (isAdpcm ∧ avail < 16)) then .skipped h 0
+  else if !noload ∧ (avail = 0 ∨ f.isNone ∨ (isAdpcm ∧ avail < 16)) then .skipped h avail
   else
     let is16 := sf h.flg XMP_SAMPLE_16BIT
     let stereo := sf h.flg XMP_SAMPLE_STEREO
@@ -516,7 +527,7 @@ def loadS (flags : Nat) (h : Hdr) (skip : Bool) (f : Option Bytes) (limit : Nat)
         if noload then buffer.take bytelen
         else if isAdpcm then adpcm bytelen ((f.getD []).take 16) ((f.getD []).drop 16)
         else shortRaw (f.getD []) bytelen delivered
-      let consumed := if noload then 0 else if isAdpcm then 16 + (bytelen + 1) / 2 else delivered
+      let consumed := if noload then 0 else if bytelen < need then avail else if isAdpcm then 16 + (bytelen + 1) / 2 else delivered
       let h1 := loop { h with len := (len : Int) }
       let h2 := if fl flags SAMPLE_FLAG_FULLREP ∧ h1.lps = 0 ∧ h1.len > h1.lpe
                 then { h1 with flg := setf h1.flg XMP_SAMPLE_LOOP_FULL } else h1
